@@ -1,10 +1,12 @@
 // C16 — neuron annotations: the in-memory head equals the store; updates merge fields.
 //
 // Oracle (differential + metamorphic, no re-implementation of the update code):
-//  (1) after commit H; newversion -> H', H is read through the store and H' through the in-memory database while both
-//      hold identical data: every read endpoint must answer identically on the two uuids;
-//  (2) the same version must answer identically before and after a restart (clean, abrupt, SIGKILL);
-//  (3) update rules of the statement, evaluated on GET key?show=all before/after each accepted POST.
+//
+//	(1) after commit H; newversion -> H', H is read through the store and H' through the in-memory database while both
+//	    hold identical data: every read endpoint must answer identically on the two uuids;
+//	(2) the same version must answer identically before and after a restart (clean, abrupt, SIGKILL);
+//	(3) update rules of the statement, evaluated on GET key?show=all before/after each accepted POST.
+//
 // Differences are attributed to precisely defined classes (stable violation keys) where a predicate proves the class;
 // everything else gets the generic key neuronjson:diff:<endpoint class>:<pair|restart-head|restart-store>.
 package main
@@ -152,7 +154,7 @@ func scenarios() []scenario {
 			return seqErr(
 				func() error { return post(s, "ada", a) },
 				func() error { return post(s, "ada", b) },
-				func() error { return post(s, "bob", nj.Ann(1001, "type", `"KC"`)) },    // unchanged: stamps of 2001 stay
+				func() error { return post(s, "bob", nj.Ann(1001, "type", `"KC"`)) },       // unchanged: stamps of 2001 stay
 				func() error { return post(s, "cyd", nj.Ann(1001, "status", `"Traced"`)) }, // other field: type stamps stay
 				s.Advance,
 				func() error { return s.Restart("clean", false) },
